@@ -553,6 +553,56 @@ DETAIL["c09_recursion_tolerant_modes"] = lambda ni, mode, use_async: {"partial":
                                                                      "outcome within 10 s at the default limits": tolerant_recursion_outcome(ni, mode, use_async)}
 CONDITIONS.append({"fn": "c09_recursion_tolerant_modes", "quick": 60, "thorough": 120, "sel_only": True})
 
+# ---- T7 deeply nested blocks under extends (every block is rendered in a block-scoped copy of the context whose globals
+# chain onto the enclosing scope): a variable defined outside still resolves promptly at any depth the nesting limit allows
+_NB_ENVS = {}
+
+
+def nested_blocks_outcome(d, override, recursive):
+    key = (d, override, recursive)
+    if key not in _NB_ENVS:
+        inner = "{{ title }}{% include 'page' %}" if recursive else "{{ title }}{{ a.b }}"
+        base = "".join("{%% block b%d %%}<" % i for i in range(d)) + inner + "".join(">{% endblock %}" for i in range(d))
+        page = "{% extends 'base' %}"
+        if override:
+            page += "".join("{%% block b%d %%}[{{ block.super }}{{ title }}]{%% endblock %%}" % i for i in range(0, d, 3))
+        _NB_ENVS[key] = Env(extra=True, loader=CachingDictLoader({"base": base, "page": page}, auto_reload=False))
+    env = _NB_ENVS[key]
+    old = signal.signal(signal.SIGALRM, _alarm)
+    signal.alarm(10)
+    try:
+        try:
+            out = env.get_template("page").render(title="T", a={"b": "B"})
+            return "completed" if ("TB" in out and out.count("<") == d) else "wrong output"
+        except _Hang:
+            return "hang"
+        except LiquidError as e:
+            return "liquid:" + type(e).__name__
+        except Exception as e:
+            return type(e).__name__
+    finally:
+        signal.alarm(0)
+        signal.signal(signal.SIGALRM, old)
+
+
+def c09_nested_blocks_lookup(di: int, override: bool, recursive: bool) -> bool:
+    """
+    pre: 0 <= di <= 5
+    post: _
+    """
+    if excluded("c09_nested_blocks_lookup", locals()):
+        return True
+    from vf.hx import cbool
+    di, override, recursive = cint(di, 0, 5), cbool(override), cbool(recursive)
+    r = untraced(lambda: nested_blocks_outcome((1, 4, 8, 14, 20, 28)[di], override, recursive))
+    return finish(r == "liquid:ContextDepthError" if recursive else r == "completed")
+
+
+DETAIL["c09_nested_blocks_lookup"] = lambda di, override, recursive: {"nested blocks": (1, 4, 8, 14, 20, 28)[di], "every third overridden with block.super": override,
+                                                                    "innermost block includes the page again": recursive,
+                                                                    "outcome within 10 s": nested_blocks_outcome((1, 4, 8, 14, 20, 28)[di], override, recursive)}
+CONDITIONS.append({"fn": "c09_nested_blocks_lookup", "quick": 60, "thorough": 120, "sel_only": True})
+
 # ---- T5 an opening followed by a long run of filler and no closing delimiter is rejected (or accepted) promptly ----------
 _LR_PRE = ["{%", "{{", "{% if", "{#", "{%-", "{% raw %}", "{% comment %}", "{{ x |", "{% liquid", "{{-", "{% doc %}", "{% a b", "{{ a",
            "{% liquid if x" + chr(10), "{% liquid echo", "{% assign x =", "{% for i in", "{{ x | append:", "{% if a ==", "{% include 'a'",
